@@ -143,6 +143,35 @@ theorem error_lists_print_fields (d : ExtDef) (x : X) :
     extError d x = errorHead x.base ++ (fieldsToPrint d).flatMap (printField x) ++ errorTail x.base ∧
     baseError x.base = errorHead x.base ++ errorTail x.base := ⟨rfl, rfl⟩
 
+/-- the template writes the same sections as `(*GError).Error()`, in the same order, with the print
+fields inserted directly before the message (regenerated from both sources) -/
+theorem tmpl_error_parts_insert :
+    GerrorTmpl.errorParts.map String.toList =
+      (GerrorBase.errorParts.map String.toList).flatMap
+        (fun p => if p = "message".toList then ["print-fields".toList, p] else [p]) := by
+  decide
+
+/-- **The extension rendering is the base rendering with the print fields inserted** between the
+name/tag/source sections and the message; the stack text, when there is a stack, ends both. -/
+theorem ext_error_is_base_with_print_fields (d : ExtDef) (x : X) (stackText : Str) :
+    errorFull x.base stackText =
+      errorHead x.base ++ (errorTail x.base ++ errorStackPart x.base stackText) ∧
+    extErrorFull d x stackText =
+      errorHead x.base ++ (fieldsToPrint d).flatMap (printField x) ++
+        (errorTail x.base ++ errorStackPart x.base stackText) := by
+  simp [errorFull, extErrorFull, extError, List.append_assoc]
+
+/-- without print fields the two renderings coincide -/
+theorem ext_error_eq_base_of_no_print_fields (d : ExtDef) (x : X) (stackText : Str)
+    (h : ∀ f ∈ d, f.print = false) : extErrorFull d x stackText = errorFull x.base stackText := by
+  have : fieldsToPrint d = [] := by
+    apply List.eq_nil_iff_forall_not_mem.mpr
+    intro f hf
+    have := (mem_fieldsToPrint d f).mp hf
+    rw [h f this.1] at this
+    exact absurd this.2 (by decide)
+  simp [errorFull, extErrorFull, extError, this]
+
 /-- … **exactly the fields tagged `print`, each once, sorted by field name.** -/
 theorem print_fields_exact (d : ExtDef) :
     (fieldsToPrint d).Perm (d.filter (·.print)) ∧
